@@ -71,10 +71,13 @@ class DocActions(object):
       assert row_id in table.row_ids, \
           "docactions.[Bulk]UpdateRecord for non-existent record #%s" % row_id
 
+    # Look up all the columns first, so that an unknown column fails before anything is modified
+    # (a partial update would have no undo action, and so could not be reverted).
+    cols = [(col_id, table.get_column(col_id), values) for col_id, values in columns.items()]
+
     # Load the updated values.
     undo_values = {}
-    for col_id, values in columns.items():
-      col = table.get_column(col_id)
+    for col_id, col, values in cols:
       undo_values[col_id] = [col.raw_get(r) for r in row_ids]
       for (row_id, value) in zip(row_ids, values):
         col.set(row_id, value)
